@@ -13,10 +13,12 @@ use std::sync::{Arc, Mutex};
 // ---------------------------------------------------------------- world description
 
 #[derive(Clone, Copy, PartialEq, Debug)]
-pub enum Kind { Map, Slot, RefFull, RefNonDisc, RefForced, MapArcMutex, MapArcRwLock, MapMutex, MapRwLock, SlotArcMutex, SlotArcRwLock, SlotMutex, SlotRwLock, RefArcMutex, RefArcRwLock, RefMutex, RefRwLock }
+pub enum Kind { Map, Slot, RefFull, RefNonDisc, RefForced, MapArcMutex, MapArcRwLock, MapMutex, MapRwLock, SlotArcMutex, SlotArcRwLock, SlotMutex, SlotRwLock, RefArcMutex, RefArcRwLock, RefMutex, RefRwLock,
+    RefNonDiscArcMutex, RefNonDiscArcRwLock, RefNonDiscMutex, RefNonDiscRwLock, RefForcedArcMutex, RefForcedRwLock }
 impl Kind {
     /// the name the model knows the store by (lock wrappers behave like the store they wrap)
-    pub fn name(self) -> &'static str { match self { Kind::Map | Kind::MapArcMutex | Kind::MapArcRwLock | Kind::MapMutex | Kind::MapRwLock => "map", Kind::Slot | Kind::SlotArcMutex | Kind::SlotArcRwLock | Kind::SlotMutex | Kind::SlotRwLock => "slot", Kind::RefFull | Kind::RefArcMutex | Kind::RefArcRwLock | Kind::RefMutex | Kind::RefRwLock => "ref:full", Kind::RefNonDisc => "ref:nondisc", Kind::RefForced => "ref:forced" } }
+    pub fn name(self) -> &'static str { match self { Kind::Map | Kind::MapArcMutex | Kind::MapArcRwLock | Kind::MapMutex | Kind::MapRwLock => "map", Kind::Slot | Kind::SlotArcMutex | Kind::SlotArcRwLock | Kind::SlotMutex | Kind::SlotRwLock => "slot", Kind::RefFull | Kind::RefArcMutex | Kind::RefArcRwLock | Kind::RefMutex | Kind::RefRwLock => "ref:full", Kind::RefNonDisc | Kind::RefNonDiscArcMutex | Kind::RefNonDiscArcRwLock | Kind::RefNonDiscMutex | Kind::RefNonDiscRwLock => "ref:nondisc",
+        Kind::RefForced | Kind::RefForcedArcMutex | Kind::RefForcedRwLock => "ref:forced" } }
 }
 #[derive(Clone, Copy, PartialEq, Debug)]
 pub enum Hm { None, UvOnly, NoUv, UvOnlyMc, NoUvMc }
@@ -130,6 +132,19 @@ pub fn make_passkey(ctx: &mut Ctx, id: Vec<u8>, rp: &str, uh: Option<Vec<u8>>, c
     Passkey { key: CoseKeyBuilder::new_ec2_priv_key(iana::EllipticCurve::P_256, x, y, d).algorithm(iana::Algorithm::ES256).build(),
         credential_id: id.into(), rp_id: rp.to_string(), user_handle: uh.map(Into::into), counter: ctr,
         extensions: CredentialExtensions { hmac_secret: hmac.map(|(a, b)| StoredHmacSecret { cred_with_uv: a, cred_without_uv: b }) } }
+}
+/// a stored credential whose private scalar has a zero leading octet and is stored without it (31 bytes), as an
+/// integer-minded exporter would write it
+pub fn make_passkey_short_d(ctx: &mut Ctx, id: Vec<u8>, rp: &str, uh: Option<Vec<u8>>, ctr: Option<u32>) -> Passkey {
+    loop {
+        let mut d = ctx.rng.bytes(32); d[0] = 0;
+        if let Ok(sk) = p256::SecretKey::from_slice(&d) {
+            let pt = p256::ecdsa::SigningKey::from(&sk).verifying_key().to_encoded_point(false);
+            let (x, y) = (pt.x().unwrap().to_vec(), pt.y().unwrap().to_vec());
+            return Passkey { key: CoseKeyBuilder::new_ec2_priv_key(iana::EllipticCurve::P_256, x, y, d[1..].to_vec()).algorithm(iana::Algorithm::ES256).build(),
+                credential_id: id.into(), rp_id: rp.to_string(), user_handle: uh.map(Into::into), counter: ctr, extensions: CredentialExtensions { hmac_secret: None } };
+        }
+    }
 }
 pub fn passkey_line(p: &Passkey) -> String {
     let (d, x, y) = key_parts(p);
@@ -379,6 +394,12 @@ pub fn run_case_tw(ctx: &mut Ctx, prop: &str, w: &World, steps: &[Step], twin: &
         Kind::RefArcRwLock => run_generic(ctx, prop, w, Arc::new(tokio::sync::RwLock::new(RefStore::new(d_full))), steps, &tw),
         Kind::RefMutex => run_generic(ctx, prop, w, tokio::sync::Mutex::new(RefStore::new(d_full)), steps, &tw),
         Kind::RefRwLock => run_generic(ctx, prop, w, tokio::sync::RwLock::new(RefStore::new(d_full)), steps, &tw),
+        Kind::RefNonDiscArcMutex => run_generic(ctx, prop, w, Arc::new(tokio::sync::Mutex::new(RefStore::new(d_non))), steps, &tw),
+        Kind::RefNonDiscArcRwLock => run_generic(ctx, prop, w, Arc::new(tokio::sync::RwLock::new(RefStore::new(d_non))), steps, &tw),
+        Kind::RefNonDiscMutex => run_generic(ctx, prop, w, tokio::sync::Mutex::new(RefStore::new(d_non)), steps, &tw),
+        Kind::RefNonDiscRwLock => run_generic(ctx, prop, w, tokio::sync::RwLock::new(RefStore::new(d_non)), steps, &tw),
+        Kind::RefForcedArcMutex => run_generic(ctx, prop, w, Arc::new(tokio::sync::Mutex::new(RefStore::new(d_forced))), steps, &tw),
+        Kind::RefForcedRwLock => run_generic(ctx, prop, w, tokio::sync::RwLock::new(RefStore::new(d_forced)), steps, &tw),
     }
 }
 
